@@ -822,6 +822,10 @@ func (u *Unit) evalCall(st *State, env *SpecEnv, e *Spec) (Val, error) {
 		if v, ok := env.atHead[e.Args[0].String()]; ok {
 			return v, nil
 		}
+		if st.discover != nil {
+			// write-set discovery of a loop: obligations are not recorded, any value will do
+			return u.eval(st, env, e.Args[0])
+		}
 		return Val{}, fmt.Errorf("athead(%s) is only available in loop step clauses", e.Args[0])
 	case "now":
 		// now(x): the current value of the local variable (or parameter cell) x
